@@ -293,6 +293,7 @@ def run(ctx, rep_):
     rep_.assume("a data-dependent failure (overflow, zero divisor, nil) is a defined dynamic failure, not a typing failure")
     run_optable(ctx, rep_, F)
     return_marking(F, rep_, "C02.return-marking")
+    member_names_unique(F, rep_)
     from props import _identity
     _identity.zip_lengths(F, rep_, "C02.zip-length")
     # the typing guards whose loss makes an accepted program fail with a dynamic type error (shared with C03 (c))
@@ -346,3 +347,72 @@ def return_marking(F, rep_, rule):
         rep_.ob(rule, "if: marking is guarded by all_branches_return", "violated", "anchors missing in if_statement", ifs.span, fn=ifs.path,
                 key=rule + "|if-body")
 
+
+
+
+def member_names_unique(F, rep, rule="C02.member-unique"):
+    """A class's type answers a member lookup with the *first* declaration of that name (ClassType keeps them in a list) while its code is
+    filed under the name (`K::f`), where the *last* definition wins: two members of one name give a method whose checked signature and executed
+    body differ (`x = a.f()` typed int holding a str).  So the list of members a class type is built from never takes a second member of a
+    name: in ClassBody::get_members every path to the push passes a scan of the names collected so far that came out negative; the only
+    by-pass allowed is for the constructor rule, whose repetition Parser::class_body reports."""
+    f = None
+    for g in F.crates["compiler"].fns:
+        if g.path.endswith("class_body::ClassBody::get_members"):
+            f = g
+    if f is None:
+        raise AnchorMissing("ClassBody::get_members")
+    pushes = [c for c in f.calls() if mir.short(c.callee()) in ("Vec::<T, A>::push", "Vec<T, A>::push", "Vec::push")]
+    if not pushes:
+        rep.ob(rule, "get_members collects the members with Vec::push", "undecided", "no push found", f.span, fn=f.path, key=rule + "|shape")
+        return
+    # a scan: Iterator::any / find / position (or a set insert / contains) whose closure compares two Ident::name results
+    scans = []
+    for c in f.calls():
+        nm = mir.short(c.callee())
+        if nm.endswith(("::any", "::find", "::position", "::contains", "::insert", "::contains_key")) and not nm.startswith("Vec"):
+            cl = [g for g in F.closures_of(f) if len(g.calls_to("compiler::ast::ident::Ident::name")) >= 2 and any(x.callee().endswith(("::eq", "::ne")) for x in g.calls())]
+            keyed = any(o.matches("compiler::ast::ident::Ident::name") for a in c.args[1:] if op_local(a) is not None for o in rules.origin_calls(f, op_local(a)))
+            if (nm.endswith(("::any", "::find", "::position")) and cl) or (nm.endswith(("::contains", "::insert", "::contains_key")) and keyed):
+                scans.append(c)
+    if not scans:
+        rep.ob(rule, "ClassBody::get_members refuses a second member of a name", "violated",
+               "no scan of the names collected so far: `class A { fn f(self) -> int { return 1 }  fn f(self) -> str { return \"a\" } }` is accepted, "
+               "`a.f()` is typed int and returns \"a\"", pushes[0].span, fn=f.path, key=rule)
+        return
+    # by-pass edges: a switch on a comparison with Rule::class_constructor
+    bypass = set()
+    for c in f.calls():
+        if not c.callee().endswith(("::eq", "::ne")):
+            continue
+        is_ctor = False
+        for a in c.args:
+            l = op_local(a)
+            for d in (rules.defs_of(f, rules.place_base_chain(f, l)) if l is not None else []):
+                if d[0] == "assign" and "use" in d[4] and "promoted" in (mir.op_const(d[4]["use"]) or {}):
+                    body = (f.d.get("promoted") or [])[mir.op_const(d[4]["use"])["promoted"]]
+                    if any(s_.get("rv", {}).get("agg", {}).get("v") == "class_constructor" for b in body["blocks"] for s_ in b["s"]):
+                        is_ctor = True
+        if is_ctor:
+            der = f.derived([c.dst["l"]])
+            past_push = {(pc.bb, pc.target) for pc in pushes}
+            for bb, t_t, f_t, pol in rules.bool_switches(f, der):
+                for tgt in (t_t, f_t):
+                    # the side of the constructor test that goes to the push without running a scan first
+                    if not any(sc.bb in f.reachable(tgt, removed_edges=past_push) for sc in scans):
+                        bypass.add((bb, tgt))
+    # with the constructor by-pass taken away (both edges of that test are removed in turn), the push is guarded by the scan
+    verdicts = []
+    scan_locals = [c.dst["l"] for c in scans]
+    der = f.derived(scan_locals)
+    removed = set()
+    for bb, t_t, f_t, pol in rules.bool_switches(f, der):
+        if pol is not None:
+            removed.add((bb, f_t if pol else t_t))        # the `no duplicate` edge
+    for c in pushes:
+        # paths to the push that avoid the scan's negative edge must go through a constructor by-pass edge
+        reach_plain = f.reachable(0, removed_edges=removed | bypass)
+        # and the by-pass edges that lead to the push without a scan are exactly constructor tests (checked by construction of `bypass`)
+        verdicts.append(c.bb not in reach_plain)
+    rep.ob(rule, "ClassBody::get_members refuses a second member of a name (constructors are reported by Parser::class_body)",
+           "ok" if all(verdicts) else "violated", "%d scan(s), %d constructor by-pass edge(s)" % (len(scans), len(bypass)), pushes[0].span, fn=f.path, key=rule)
